@@ -54,12 +54,18 @@ class TenTimes:
             sched.record(('handled', pid, x))
         except Exception:
             pass
+        if x in self.faults and self.fan == 'raise-mid': return self._raise_mid(pid, x)      # a generator that fails AFTER its first output
         if x in self.faults: raise EXC_KINDS[self.exc](x)
         if self.fan == 'echo': return (pid, 'echo:' + repr(x))      # items that are not numbers (None, '', () ...)
         if self.fan == 'two': return iter([(pid, 10 * x), (pid, 10 * x + 1)])
         if self.fan == 'skip1' and x == 1: return iter([])
         if self.fan == 'none1' and x == 1: return None
         return (pid, 10 * x)
+
+
+    def _raise_mid(self, pid, x):
+        yield (pid, 10 * x)
+        raise EXC_KINDS[self.exc](x)
 
 
 class TenTimesGen(TenTimes):
